@@ -30,6 +30,37 @@ def _gate_exc(kind):
             RuntimeError(0), LookupError("")][kind % 9]
 
 
+NAME_FLAVOURS = ["distinct", "one-empty", "all-empty", "pair", "all-same", "falsy-looking", "odd"]
+
+
+def stage_names(case):
+    """The names the stages are given: the caller's choice - distinct, empty, repeated, falsy-looking."""
+    n = len(case["stages"])
+    fl = case.get("names", "distinct")
+    k = case.get("exc", 0)
+    names = [f"s{i}" for i in range(n)]
+    if fl == "one-empty":
+        names[k % n] = ""
+    elif fl == "all-empty":
+        names = [""] * n
+    elif fl == "pair" and n >= 2:
+        a, b = k % n, (k // 2 + 1) % n
+        if a == b:
+            b = (a + 1) % n
+        names[b] = names[a]
+    elif fl == "all-same":
+        names = ["stage"] * n
+    elif fl == "falsy-looking":
+        names = [["0", "False", "None", " ", "0.0"][(k + i) % 5] for i in range(n)]
+    elif fl == "odd":
+        names = [["dummy2", "s\u00e9", "a b", "s0", "no-such", "{x}"][(k + i) % 6] for i in range(n)]
+    return names
+
+
+def name_classes(names):
+    return [names.index(nm) for nm in names]
+
+
 def ev_gate(c, x):
     if c[0] == "const":
         return c[1]
@@ -50,7 +81,8 @@ def ev_proc(p, x):
 class C19(Check):
     PID = "C19"
     HEADER = "From Verif Require Import C19.Model."
-    RUN = "run_case"
+    RUN = "run_case_named"
+    CASE_TYPE = "named_case"
     N_QUICK = 700
     N_THOROUGH = 20000
     RULE = ("pipelines of 1..5 stages; per stage checkpoint in {none,pass,reject,raise,signal-dependent}, "
@@ -69,8 +101,9 @@ class C19(Check):
     TRUSTED = ["modelled not verified: signals are integers, user callbacks are deterministic functions of the signal; "
                "float amplification compared exactly on dyadic factors (binary64 product exact on them)",
                "on_stage_complete / on_cascade_complete callbacks are not supplied (None)"]
-    ASSUMPTIONS = ["stage names are unique (blocked_at is reported by name)",
-                   "amplification factors are finite, non-NaN doubles"]
+    ASSUMPTIONS = ["amplification factors are finite, non-NaN doubles",
+                   "stage names are strings (any: empty, repeated, falsy-looking); a result is attributed to a stage by "
+                   "position (run) or by name (run_parallel, where repeated names make the attribution a multiset)"]
 
     # -- generation --------------------------------------------------------
     def _rand_stage(self, rng):
@@ -107,7 +140,9 @@ class C19(Check):
                         # what raising callbacks raise (message-less, falsy, StopIteration ...)
                         "exc": rng.randrange(9),
                         # earlier runs of the same object may see other (equal-but-distinct) inputs and other gate answers
-                        "warm": rng.choice(["same", "same", "equal-distinct", "gates-flipped", "other-input"])})
+                        "warm": rng.choice(["same", "same", "equal-distinct", "gates-flipped", "other-input"]),
+                        # stage names are the caller's: distinct, empty, repeated, falsy-looking
+                        "names": rng.choice(["distinct"] * 5 + NAME_FLAVOURS)})
         return out
 
     def exhaustive_cases(self):
@@ -126,7 +161,8 @@ class C19(Check):
                                 "runs": 1 + (len(out) % 2),
                                 "build": ["add", "insert", "reverse-insert", "dummy-removed", "late-gate", "mixed"][(len(out) // 3) % 6],
                                 "exc": len(out) % 9,
-                                "warm": ["same", "equal-distinct", "gates-flipped", "other-input"][(len(out) // 2) % 4]})
+                                "warm": ["same", "equal-distinct", "gates-flipped", "other-input"][(len(out) // 2) % 4],
+                                "names": (["distinct"] * 3 + NAME_FLAVOURS)[(len(out) // 5) % 10]})
         # the fork pattern: every pipeline of <= 2 (quick) / <= 3 (thorough) stages again through run_parallel
         par = []
         for c in out:
@@ -183,6 +219,8 @@ class C19(Check):
         casc = C.Cascade("c", mode=mode, max_amplification=case["max"], halt_on_failure=case["halt"],
                          silent=not case.get("loud"), **kw)
         built = []
+        names = stage_names(case)
+        cls = name_classes(names)
         phase = {"warm": False}
         for i, s in enumerate(stages):
             def mk(i, s):
@@ -211,7 +249,7 @@ class C19(Check):
                     if s["h"][0] == "raise":
                         raise _gate_exc(case.get("exc", 0) + i + 3)
                     return s["h"][1]
-                return C.CascadeStage(name=f"s{i}", processor=processor, amplification=s["f"],
+                return C.CascadeStage(name=names[i], processor=processor, amplification=s["f"],
                                       checkpoint=checkpoint if s["c"] else None,
                                       on_error=on_error if s["h"] else None, required=s["req"])
             built.append(mk(i, s))
@@ -248,7 +286,7 @@ class C19(Check):
                 if k % 2 == 1:
                     casc.insert_stage(pos, st)
                     pos += 2
-        assert [st.name for st in casc._stages] == [f"s{i}" for i in range(len(stages))], "harness: wrong stage order"
+        assert [st.name for st in casc._stages] == names, "harness: wrong stage order"
         # the same object is run several times: every run must be judged (and come out) on its own
         parallel = case.get("entry") == "run_parallel"
         entry = casc.run_parallel if parallel else casc.run
@@ -272,53 +310,68 @@ class C19(Check):
         res = entry(case["x"])
         if case.get("hooks"):
             done = sorted(r.stage_name for r in res.stage_results if r.status.value == "completed" and r.error is None)
+            # (names, as the hooks and the result both report names)
             if not parallel and (sorted(hooked["stage"]) != done or hooked["cascade"] != [bool(res.success)]):
                 self.violations.append(Violation(
                     "C19/hooks-disagree", f"on_stage_complete saw {hooked['stage']}, on_cascade_complete saw {hooked['cascade']}; "
                     f"the result reports completed-by-processor stages {done} and success={res.success}", case=case))
         codes = {"completed": 0, "failed": 1, "skipped": 2, "blocked": 3}
         if parallel:
-            return self._obs_parallel(case, res, log, earlier, codes)
+            return self._obs_parallel(case, res, log, earlier, codes, names, cls)
         amp = Fraction(res.total_amplification)
         out = res.final_output
+        # blocked_at is a NAME (None = nothing blocked; "" is a legal name): identified by the first stage carrying it
+        blocked = -1 if res.blocked_at is None else (names.index(res.blocked_at) if res.blocked_at in names else -9)
         obs = [[int(bool(res.success)), int(out is not None), out if isinstance(out, int) else 0,
-                int(res.blocked_at[1:]) if res.blocked_at else -1, res.stages_completed],
+                blocked, res.stages_completed],
                [amp.numerator, amp.denominator], [len(res.stage_results)]]
         sres = []
-        for r in res.stage_results:
-            i = int(r.stage_name[1:])
+        # sequential results arrive in stage order: matched by position (names need not be distinct)
+        for pos, r in enumerate(res.stage_results):
+            i = pos if pos < len(names) and r.stage_name == names[pos] else -9
             st = codes[r.status.value]
             # amplification_factor is only meaningful for processor-completed stages
             applied = st == 0 and r.error is None
             f = Fraction(r.amplification_factor) if applied else Fraction(1)
             obs.append([i, st, int(applied), f.numerator, f.denominator])
-            sres.append((i, st, f if applied else None))
+            sres.append((pos, st, f if applied else None))
         obs += [list(e) for e in log]
         trace = {"log": log, "sres": sres, "success": bool(res.success), "out": out,
                  "amp": amp, "blocked": res.blocked_at, "earlier": earlier, "last": self._summary(res, list(log))}
         return obs, trace
 
-    def _obs_parallel(self, case, res, log, earlier, codes):
-        """run_parallel: stage results and callback events arrive in completion order; canonical = by stage index."""
+    def _obs_parallel(self, case, res, log, earlier, codes, names, cls):
+        """run_parallel: stage results and callback events arrive in completion order; a result is identified by its
+        stage's NAME (= the first stage carrying that name); canonical = the sorted list of rows."""
         log = sorted(log)
-        results = sorted(res.stage_results, key=lambda r: int(r.stage_name[1:]))
-        outs_by_stage = [r.output_signal for r in results if r.status.value == "completed"]
+        key = lambda r: (names.index(r.stage_name) if r.stage_name in names else -9)
+        results = list(res.stage_results)
+        # outputs in stage order: by the processors' own log (each closure knows its stage), not by name
+        outs_by_stage = [ev_proc(case["stages"][i]["p"], case["x"])[1]
+                         for i in sorted({e[0] for e in log if e[1] == 1})
+                         if ev_proc(case["stages"][i]["p"], case["x"])[0] == "ok"]
+        reported_outs = [r.output_signal for r in results if r.status.value == "completed"]
         fo = res.final_output
         obs = [[int(bool(res.success)), int(fo is not None), 0, -1, res.stages_completed], [1, 1], [len(results)]]
-        sres = []
+        sres, rows = [], []
         for r in results:
-            i = int(r.stage_name[1:])
+            i = key(r)
             st = codes[r.status.value]
             applied = st == 0
             f = Fraction(r.amplification_factor) if applied else Fraction(1)
-            obs.append([i, st, int(applied), f.numerator, f.denominator])
+            rows.append([i, st, int(applied), f.numerator, f.denominator])
             sres.append((i, st, f if applied else None))
+        rows.sort()
+        sres.sort(key=lambda t: (t[0], t[1], t[2] if t[2] is not None else Fraction(1)))
+        obs += rows
         obs += [list(e) for e in log]
         # the released outputs, in stage order when they are a permutation of the completed stages' outputs
-        perm = isinstance(fo, list) and sorted(map(repr, fo)) == sorted(map(repr, outs_by_stage))
+        perm = (isinstance(fo, list) and sorted(map(repr, fo)) == sorted(map(repr, outs_by_stage))
+                and sorted(map(repr, reported_outs)) == sorted(map(repr, outs_by_stage)))
         obs.append([-5] + (outs_by_stage if (fo is not None and perm) else ([] if fo is None else [-777777])))
         trace = {"parallel": True, "log": log, "sres": sres, "success": bool(res.success), "out": fo,
                  "outs_by_stage": outs_by_stage, "amp": Fraction(res.total_amplification), "blocked": res.blocked_at,
+                 "names": names, "cls": cls,
                  "earlier": earlier, "last": self._summary(res, log, True)}
         return obs, trace
 
@@ -359,8 +412,9 @@ class C19(Check):
             return "HRaise" if h[0] == "raise" else f"(HRecover {cz(h[1])})"
         st = clist([ctuple(cb(s["c"]), pb(s["p"]), hb(s["h"]), cbool(s["req"]), cq(Fraction(s["f"])) + "%Q")
                     for s in case["stages"]])
-        return ctuple(cbool(case.get("entry") == "run_parallel"), cbool(case["halt"]), cq(Fraction(case["max"])) + "%Q", st,
-                      cz(case["x"]))
+        c = ctuple(cbool(case.get("entry") == "run_parallel"), cbool(case["halt"]), cq(Fraction(case["max"])) + "%Q", st,
+                   cz(case["x"]))
+        return ctuple(c, clist([cz(k) for k in name_classes(stage_names(case))]))
 
     # -- the property, on the implementation's trace ------------------------
     def monitor(self, case, obs, trace):
@@ -450,13 +504,35 @@ class C19(Check):
                 if ev_gate(stages[i]["c"], x) != "GPass" or [i, 0, x] not in log:
                     return Violation("C19/gate-fail-open", f"run_parallel: stage {i} processed signal {x} although its "
                                                            f"checkpoint did not return true for it")
-        for (i, st, _f) in trace["sres"]:
-            if st == 0 and stages[i]["c"] is not None and ev_gate(stages[i]["c"], x0) != "GPass":
-                return Violation("C19/gate-fail-open", f"run_parallel: stage {i} is reported COMPLETED although its checkpoint did not return true")
+        # results are attributed by NAME: of the stages sharing a name, no more may be reported COMPLETED than have
+        # a checkpoint that returned true (or none) and a processor that returned
+        names = trace.get("names") or [f"s{i}" for i in range(len(stages))]
+        for nm in sorted(set(names)):
+            group = [i for i, n in enumerate(names) if n == nm]
+            rep_i = group[0]
+            completed = sum(1 for (i, st, _f) in trace["sres"] if i == rep_i and st == 0)
+            open_gates = sum(1 for i in group if stages[i]["c"] is None or ev_gate(stages[i]["c"], x0) == "GPass")
+            can = sum(1 for i in group if (stages[i]["c"] is None or ev_gate(stages[i]["c"], x0) == "GPass")
+                      and ev_proc(stages[i]["p"], x0)[0] == "ok")
+            if completed > open_gates:
+                return Violation("C19/gate-fail-open", f"run_parallel: {completed} result(s) named {nm!r} are reported COMPLETED, "
+                                                       f"but only {open_gates} of the {len(group)} stage(s) of that name have "
+                                                       f"a checkpoint that returned true (or none)")
+            if completed > can:
+                return Violation("C19/completed-without-processing",
+                                 f"run_parallel: {completed} result(s) named {nm!r} are reported COMPLETED, but only {can} "
+                                 f"stage(s) of that name were let through AND had their processor return")
         sts = [(i, st) for (i, st, _f) in trace["sres"]]
-        allc = sts == [(i, 0) for i in range(len(stages))]
+        allc = (len(sts) == len(stages) and all(st == 0 for (_i, st) in sts)
+                and sorted(i for (i, _st) in sts) == sorted(trace.get("cls") or range(len(stages))))
         if trace["success"] and not allc:
-            return Violation("C19/success-not-all-completed", f"run_parallel: success reported with stage results {sts}")
+            return Violation("C19/success-not-all-completed", f"run_parallel: success reported with stage results {sts} "
+                                                              f"(stages named {names})")
+        if trace["success"]:
+            shut = [i for i, s_ in enumerate(stages) if s_["c"] is not None and ev_gate(s_["c"], x0) != "GPass"]
+            if shut:
+                return Violation("C19/success-not-all-completed", f"run_parallel: success reported although the checkpoint of "
+                                                                  f"stage(s) {shut} did not return true (names {names})")
         if not trace["success"] and trace["out"] is not None:
             return Violation("C19/output-released-on-failure", f"run_parallel: final_output {trace['out']} released although success is False")
         if trace["success"]:
@@ -478,7 +554,8 @@ class C19(Check):
     def classify(self, case, obs, trace):
         if case.get("mapk"):
             return ["mapk"]
-        ks = [f"stages={len(case['stages'])}", f"halt={case['halt']}", "success" if trace.get("success") else "not-success"]
+        ks = [f"stages={len(case['stages'])}", f"halt={case['halt']}", "success" if trace.get("success") else "not-success",
+              f"names={case.get('names', 'distinct')}"]
         for (_i, st, _f) in trace.get("sres", []):
             ks.append("status=" + ["completed", "failed", "skipped", "blocked"][st])
         return ks
